@@ -52,8 +52,9 @@ TabWhy(e, o) ==
            dtopen == \E ci \in 1..Len(e.cols) : e.cols[ci].dt.open
        IN IF bad > 0 THEN ColWhy(e.cols[bad], o.cols[bad])
           ELSE IF ~dtopen /\ \E ci \in 1..Len(e.cols) : ~DtOK(e.cols[ci].dt, o.cols[ci].dt) THEN "dtype" ELSE ""
+CannotRead == "object could not be read or inspected"
 AccWhy0(e, o) ==
-  IF o.fail # "" THEN "object could not be read or inspected"
+  IF o.fail # "" THEN CannotRead
   ELSE IF o.tables # e.tables \/ Len(o.tabs) # Len(e.tabs) THEN "tables"
   ELSE IF o.pairs # e.pairs THEN "pairs"
   ELSE IF o.undef # e.undef THEN "type of an undefined name"
@@ -65,7 +66,8 @@ AccWhy(r) ==
   IN IF w = "" THEN ""
      ELSE IF e.notes.brace THEN "D-X08-3: " \o w
      ELSE IF e.notes.semicolon THEN "D-X08-2: " \o w
-     ELSE IF e.notes.charname THEN "D-X08-4: " \o w
+     ELSE IF e.notes.charname /\ w \in {"isarray", "array_length", "char_length", "dtype", CannotRead} THEN "D-X08-4: " \o w
+     ELSE IF e.notes.emptyauto /\ w \in {"dtype", CannotRead} THEN "D-X08-5: " \o w
      ELSE w
 
 ConvOneOK(e, o) ==
